@@ -42,6 +42,36 @@ theorem thirdParty_edit_bumps (s : Sys) (cur next : OSet) (b : Bool) (hne : next
     ((s.thirdPartyStore cur next b).sets cur.name).map (·.rv) = some s.w.store.nextRV := by
   simp [Sys.thirdPartyStore, hne, Sys.setSet]
 
+/-- **status_ahead_makes_pass_stale**: when the store gets ahead of a running pass — the outcome of
+the controller's own previous pass (Succeeded recorded / archival completed) becomes visible after
+the pass has read its ObjectSet: third-party operation `status` — the stored object carries a
+resourceVersion the pass has never seen, unless nothing had to be recorded.  Together with
+`stale_pass_cannot_write`: no later write of that pass on the ObjectSet goes through, the stored
+status (Succeeded, Archived, empty controllerOf) stays as it is. -/
+theorem status_ahead_makes_pass_stale (s : Sys) (n v : String) (c : OSet) (hn : c.name = n)
+    (hc : s.sets n = some c) :
+    (s.applySetEnv (.status n v)).sets n = some c ∨
+    ((s.applySetEnv (.status n v)).sets n).map (·.rv) = some s.w.store.nextRV := by
+  subst hn
+  simp only [Sys.applySetEnv, hc]
+  by_cases hv : v = "Archived"
+  · simp only [hv, if_true]
+    by_cases ha : condTrue c.conds "Archived" = true
+    · simp [ha, hc]
+    · simp only [ha, Bool.false_eq_true, if_false]
+      simp only [Sys.thirdPartyStore]
+      split
+      · exact Or.inl hc
+      · exact Or.inr (by simp [Sys.setSet])
+  · simp only [hv, if_false]
+    by_cases ha : condTrue c.conds "Succeeded" = true
+    · simp [ha, hc]
+    · simp only [ha, Bool.false_eq_true, if_false]
+      simp only [Sys.thirdPartyStore]
+      split
+      · exact Or.inl hc
+      · exact Or.inr (by simp [Sys.setSet])
+
 /-- a pass that reports no failing phase visited ALL phases and found every one clean. -/
 theorem phases_ok_none_all_clean (cfg : Cfg) (ow : Owner) (prev : List Prev) (remote : Pko.Props.C03.RemoteRec) :
     ∀ (phases : List PhaseSpec) (w : World) (acc co : List CRef),
